@@ -64,6 +64,7 @@ type connState struct {
 	queue   [][][]byte
 	asking  bool
 	closed  bool
+	name    string // CLIENT SETNAME
 }
 
 type failRule struct {
@@ -128,6 +129,8 @@ type Server struct {
 	RestoreSeen   []RestoreCall
 	MaxRdbVersion uint16
 	CommandHook   func(args [][]byte) resp.Reply
+	curOrigin     string // name / id of the connection whose request is being executed (read by the propagation)
+	curConn       int
 	// QuietReq: requests for which it returns true are processed but appear in neither log (bulk scans that would drown the history).
 	QuietReq func(cmd string, args [][]byte, reply string) bool
 	// CountPred restricts which requests count towards CrashAfter (nil = all).
